@@ -56,6 +56,14 @@ def run_doc(ctx: Ctx, it: dict) -> None:
                 mode = MODES[k % len(MODES)]
                 inst = instgen.named(rng, name, d.sexp, mode)
                 rts.append({"id": f"{name}-{k}", "model": name, "json": inst, "_mode": mode})
+            # the same document WITHOUT its optional properties that declare a default (the statement tolerates null or an
+            # empty container for an absent optional property, nothing else)
+            defaulted = [pn for pn, pe in (e.get("props") or {}).items() if "default" in pe and not pe.get("required")]
+            if defaulted:
+                inst = instgen.named(rng, name, d.sexp, "max")
+                if isinstance(inst, dict) and any(pn in inst for pn in defaulted):
+                    rts.append({"id": f"{name}-omitdef", "model": name, "json": {k2: v for k2, v in inst.items() if k2 not in defaulted},
+                                "_mode": "omits_defaulted", "_omits_default": True})
     # the converter registers hooks lazily on first use of each class (process-global state): vary the first-use order.
     # Referrers before the models they contain is the order a real client meets (a response model is decoded first).
     if it.get("roundtrips") is None:
@@ -93,10 +101,13 @@ def run_doc(ctx: Ctx, it: dict) -> None:
         if o is None:
             continue
         feats = sorted(d.features)
+        if r.get("_omits_default"):
+            feats = feats + ["instance_omits_defaulted_property"]
+            rec.count("instances_omitting_a_defaulted_property")
         case = dict(case_base, roundtrip={"model": r["model"], "json": r["json"]}, phase=phase)
         if model_feats:
             # rich grammar: a violation is attributed to the shapes inside THIS model, not to the whole document
-            feats = list(model_feats.get(r["model"], [])) + [phase or "rich"]
+            feats = list(model_feats.get(r["model"], [])) + [phase or "rich"] + (["instance_omits_defaulted_property"] if r.get("_omits_default") else [])
             case["model_feats"] = model_feats
             rec.count(f"{phase or 'rich'}_roundtrips")
             if phase == "shapes":
